@@ -98,6 +98,30 @@ type ScanMark struct{ V string }
 
 func (ScanMark) Prefix() string { return "mark" }
 
+// ConfigurationProperties through a POINTER receiver (the usual way to write it): *ScanPMark implements the interface,
+// ScanPMark does not.  Prefix "grp" is in scanYaml ({A: ga, B: 5}).  Prefix() must work on a nil receiver: the library
+// asks a nil pointer field for its prefix.
+type ScanPMark struct {
+	A string
+	B int
+}
+
+func (*ScanPMark) Prefix() string { return "grp" }
+
+// the same; a POINTER field of this type is pre-set by the harness (non-nil, sentinel content) before Run
+type ScanPSet struct {
+	A string
+	B int
+}
+
+func (*ScanPSet) Prefix() string { return "grp" }
+
+// pointer receiver, and a prefix the configuration does not hold: binding it is Required, so a recognised field of this
+// type refuses the start — an unrecognised one (by value) must not
+type ScanPNone struct{ A string }
+
+func (*ScanPNone) Prefix() string { return "nokey" }
+
 // a plain named struct type (no methods)
 type ScanGrp struct {
 	A string
@@ -133,7 +157,27 @@ var scanLeafTypes = map[string]reflect.Type{
 var (
 	scanGrpT  = reflect.TypeOf(ScanGrp{})
 	scanMarkT = reflect.TypeOf(ScanMark{})
+	// the marker family (seventh round): struct type codes pm / ps / pn
+	scanMarkFamilyT = map[string]reflect.Type{"pm": reflect.TypeOf(ScanPMark{}), "ps": reflect.TypeOf(ScanPSet{}), "pn": reflect.TypeOf(ScanPNone{})}
+	scanCfgPropsT   = reflect.TypeOf((*definition.ConfigurationProperties)(nil)).Elem()
 )
+
+// scanPreset: a POINTER field the harness sets to a fresh struct with sentinel content before Run.  A nil pointer to a
+// type whose Prefix() has a VALUE receiver cannot be asked for its prefix (Go panics in the method wrapper, inside a
+// goroutine of the container: the process dies), so `*ScanMark` fields are always pre-set.
+func scanPreset(n *scanNode) bool { return n.isStruct && !n.byVal && (n.ty == "ps" || n.ty == "mk") }
+
+// scanMarkFamily: the shape holds a field of the marker family (never true for a shape of the first six rounds)
+func scanMarkFamily(kids []*scanNode) bool {
+	for _, k := range kids {
+		if k.isStruct {
+			if _, ok := scanMarkFamilyT[k.ty]; ok || (k.ty == "mk" && !k.byVal) || scanMarkFamily(k.kids) {
+				return true
+			}
+		}
+	}
+	return false
+}
 
 /* ---------- the recording processor: a user-supplied tag processor ---------- */
 
@@ -268,7 +312,7 @@ type scanKV struct{ k, v string }
 
 type scanNode struct {
 	name     string
-	ty       string // leaf: s i b lg pa pb if in o ; struct: st gr mk o
+	ty       string // leaf: s i b lg pa pb if in o ; struct: st gr mk o, marker family pm ps pn
 	marker   string // "" = value does not implement ConfigurationProperties, else "=" + Prefix()
 	tags     []scanKV
 	isStruct bool
@@ -415,6 +459,8 @@ func scanFieldType(n *scanNode) reflect.Type {
 		t = scanGrpT
 	case "mk":
 		t = scanMarkT
+	case "pm", "ps", "pn":
+		t = scanMarkFamilyT[n.ty]
 	default:
 		t = scanStructOf(n.kids)
 	}
@@ -447,6 +493,12 @@ func scanFill(v reflect.Value, n *scanNode) {
 			for i, k := range n.kids {
 				scanFill(v.Field(i), k)
 			}
+		} else if scanPreset(n) {
+			p := reflect.New(v.Type().Elem())
+			for i, k := range n.kids {
+				scanFill(p.Elem().Field(i), k)
+			}
+			v.Set(p)
 		}
 		return
 	}
@@ -857,6 +909,10 @@ func scanRunX(kids []*scanNode, static any, extra string) *scanResult {
 
 // "=" + Prefix() when a zero value of the field type implements ConfigurationProperties (the real interface check)
 func scanMarkerOf(ft reflect.Type) string {
+	if ft != nil && ft.Kind() == reflect.Ptr && ft.Elem().Kind() == reflect.Struct && ft.Implements(scanCfgPropsT) {
+		// a pointer field: the method set of *T (value and pointer receivers); asked of a fresh, non-nil *T
+		return "=" + reflect.New(ft.Elem()).Interface().(definition.ConfigurationProperties).Prefix()
+	}
 	if ft == nil || ft.Kind() == reflect.Ptr || ft.Kind() == reflect.Interface {
 		return ""
 	}
@@ -1300,6 +1356,42 @@ func scanOracleFlat(r, flat *scanResult) string {
 	return ""
 }
 
+// scanConfigPoint: a unit the container may touch — exported, and carrying a recognised tag or being a
+// ConfigurationProperties by its type (the harness' own reading of the property: tag text and Go's method sets)
+func scanConfigPoint(n *scanNode) bool {
+	_, rec := (scanUnit{n: n}).recognised()
+	return scanExported(n.name) && (rec || n.marker != "")
+}
+
+// oracle (vii), marker-family shapes only: the units the property calls untouched do not decide whether the container
+// starts.  The same units without them (flattened, a reflect.StructOf type) must end Run with the same outcome.
+func scanOracleStart(r *scanResult, kids []*scanNode, extra string) string {
+	var keep []*scanNode
+	var dropped []string
+	for _, n := range scanFlatten(kids) {
+		if scanConfigPoint(n) {
+			keep = append(keep, n)
+		} else {
+			dropped = append(dropped, fmt.Sprintf("%s %s%s `%s`", n.name, map[bool]string{true: "", false: "*"}[!n.isStruct || n.byVal], n.ty, n.tagText()))
+		}
+	}
+	if len(dropped) == 0 {
+		return ""
+	}
+	red := scanRunX(keep, nil, extra)
+	if red.obs == "structof-panic" {
+		return "" // an embedded Go-declared type with methods: reflect.StructOf cannot build the reduced twin
+	}
+	if red.outcome != r.outcome {
+		if len(dropped) > 6 {
+			dropped = append(dropped[:6], "…")
+		}
+		return fmt.Sprintf("FAIL scan-frame-start Run ends %s, but %s without the fields the container has no business with (%s): %s",
+			r.outcome, red.outcome, strings.Join(dropped, "; "), r.detail+red.detail)
+	}
+	return ""
+}
+
 func scanLabels(kids []*scanNode, r *scanResult, extra ...string) []string {
 	tags := append([]string{}, extra...)
 	d := scanDepth(kids)
@@ -1364,6 +1456,38 @@ func scanLabels(kids []*scanNode, r *scanResult, extra ...string) []string {
 	if blankInGroup {
 		tags = append(tags, "custom-blank-in-brackets")
 	}
+	famShape := scanMarkFamily(kids) // (labels of marker-family shapes only: the older shapes keep theirs)
+	famSeen := map[string]bool{}
+	famTag := func(t string) {
+		if !famSeen[t] {
+			famSeen[t] = true
+			tags = append(tags, t)
+		}
+	}
+	for _, u := range r.units {
+		n := u.n
+		if _, fam := scanMarkFamilyT[n.ty]; !famShape || !n.isStruct || !(fam || n.ty == "mk") || !scanExported(n.name) {
+			continue
+		}
+		_, hasPrefix := reflect.StructTag(n.tagText()).Lookup("prefix")
+		deep := map[bool]string{true: "-embedded", false: ""}[strings.Contains(u.path, ".")]
+		switch {
+		case hasPrefix:
+			famTag("mark-prefix-tagged")
+		case n.byVal && n.marker == "":
+			// the shape the method-set rule is about: by value, Prefix() on the pointer only, no prefix tag
+			famTag("mark-ptrrecv-byvalue"+deep)
+			if len(n.tags) > 0 {
+				famTag("mark-ptrrecv-byvalue-foreign-tag")
+			}
+		case n.byVal:
+			famTag("mark-valrecv-byvalue"+deep)
+		case n.ty == "mk":
+			famTag("mark-valrecv-pointer"+deep)
+		default:
+			famTag("mark-ptrrecv-pointer"+deep)
+		}
+	}
 	if r.extra != nil && r.extra.calls > 0 && r.rec.calls > 0 && len(r.rec.seen) > 0 && strings.IndexByte("ebp", r.extra.ret) >= 0 {
 		tags = append(tags, "extra-returns-without-custom-fields")
 	}
@@ -1396,6 +1520,9 @@ func scanCase(mode string, kids []*scanNode, static any, flat *scanResult, label
 	c.Oracle = scanOracleSingle(r)
 	if c.Oracle == "" && flat != nil {
 		c.Oracle = scanOracleFlat(r, flat)
+	}
+	if c.Oracle == "" && scanMarkFamily(kids) {
+		c.Oracle = scanOracleStart(r, kids, extra)
 	}
 	c.Tags = scanLabels(kids, r, labels...)
 	w.Put(c)
@@ -1711,7 +1838,79 @@ type ScanStatic21Flat struct {
 	Only  int    `mytag:"   ,k"`
 }
 
-var scanStaticFlat = map[int]any{21: ScanStatic21Flat{},0: ScanStatic0Flat{}, 4: ScanStatic4Flat{}, 5: ScanStatic5Flat{},
+// the marker family on Go-declared holder types (seventh round): which fields are configuration points without a tag is
+// decided by the method set of the field's TYPE.  The comments say what the unchanged library does (observed first).
+type ScanCfgInner struct {
+	Primary  *ScanPMark                    // *T implements: bound from "grp" (a fresh struct is allocated)
+	Fallback ScanPMark                     // by value, pointer receiver: T does not implement — left alone
+	Labelled ScanPMark `json:"labelled"`   // only a foreign tag: left alone
+	Bound    ScanPMark `prefix:"grp"`      // the prefix tag: bound
+	ByVal    ScanMark                      // value receiver: bound from "mark"
+	ByValJ   ScanMark `json:"m"`           // bound from "mark"
+	PtrV     *ScanMark                     // bound from "mark" (pre-set: see scanPreset)
+	PtrSet   *ScanPSet `yaml:"p"`          // pre-set, bound from "grp"
+	Absent   ScanPNone                     // by value, pointer receiver, prefix absent from the configuration: left alone,
+	AbsentJ  ScanPNone `yaml:"x" mytag:"cfg,note=(a b)"` // and no reason to refuse the start; the recorder is handed this one
+	hidden   ScanPMark
+	hiddenP  *ScanPMark
+	Note     string
+}
+type ScanCfgMid struct {
+	Count int
+	ScanCfgInner
+}
+type ScanStatic23 struct {
+	Label string
+	ScanCfgMid
+	Tail ScanPSet `db:"t"`
+}
+type ScanStatic23Flat struct {
+	Label    string
+	Count    int
+	Primary  *ScanPMark
+	Fallback ScanPMark
+	Labelled ScanPMark `json:"labelled"`
+	Bound    ScanPMark `prefix:"grp"`
+	ByVal    ScanMark
+	ByValJ   ScanMark `json:"m"`
+	PtrV     *ScanMark
+	PtrSet   *ScanPSet `yaml:"p"`
+	Absent   ScanPNone
+	AbsentJ  ScanPNone `yaml:"x" mytag:"cfg,note=(a b)"`
+	hidden   ScanPMark
+	hiddenP  *ScanPMark
+	Note     string
+	Tail     ScanPSet `db:"t"`
+}
+
+// the same types as ANONYMOUS members: an embedded struct with a tag is a field of its own, an embedded pointer too
+// (three embedded types declare Prefix at the same depth, so the holders promote none)
+type ScanCfgAnon struct {
+	ScanPMark `json:"e"` // by value, pointer receiver, foreign tag: left alone
+	ScanMark  `yaml:"m"` // value receiver: bound from "mark"
+	*ScanPSet            // pointer: bound from "grp"
+	Own       string `value:"lit"`
+}
+type ScanStatic25 struct {
+	Label string
+	ScanCfgAnon
+}
+type ScanStatic25Flat struct {
+	Label     string
+	ScanPMark `json:"e"`
+	ScanMark  `yaml:"m"`
+	*ScanPSet
+	Own string `value:"lit"`
+}
+
+// an untagged embedded by-value struct is descended into whatever its methods are: its fields are plain untagged fields
+type ScanStatic27 struct {
+	ScanPNone
+	Inner struct{ ScanPMark }
+	W     string `value:"${s.k1}"`
+}
+
+var scanStaticFlat = map[int]any{23: ScanStatic23Flat{}, 25: ScanStatic25Flat{}, 21: ScanStatic21Flat{},0: ScanStatic0Flat{}, 4: ScanStatic4Flat{}, 5: ScanStatic5Flat{},
 	9: ScanHubFlat2{}, 10: ScanHubFlat1{}, 11: ScanHubFlat1{}, 12: ScanHubFlat1{}, 13: ScanHubFlat1{}, 14: ScanHubFlat2{}, 15: ScanHubFlat3{},
 	18: ScanSoloFlat2{}, 19: ScanSoloFlat1{}, 20: ScanSoloFlat1{}}
 
@@ -1720,7 +1919,8 @@ var scanStatics = []any{ScanStatic0{}, ScanStatic1{}, ScanStatic2{}, ScanStatic3
 	/* 9 */ ScanHubFirst{}, ScanHubSecond{}, ScanHubAfterEmbed{}, ScanHubDeep{}, ScanHubDeep3{}, ScanHubFirstDeep{}, ScanHubMid{},
 	/* 16 */ ScanSoloFlat1{}, ScanSoloFlat2{},
 	/* 18 */ ScanSoloFirst{}, ScanSoloSecond{}, ScanSoloDeep{},
-	/* 21 */ ScanStatic21{}, ScanStatic21Flat{}}
+	/* 21 */ ScanStatic21{}, ScanStatic21Flat{},
+	/* 23 */ ScanStatic23{}, ScanStatic23Flat{}, ScanStatic25{}, ScanStatic25Flat{}, ScanStatic27{}}
 
 func scanParseTag(tag string) []scanKV {
 	// the conventional format only (static types are hand-written); mirrors reflect.StructTag.Lookup's scanner
@@ -1788,6 +1988,11 @@ func scanNodesOf(t reflect.Type) []*scanNode {
 				n.ty = "gr"
 			case scanMarkT:
 				n.ty = "mk"
+			}
+			for code, mt := range scanMarkFamilyT {
+				if mt == st {
+					n.ty = code
+				}
 			}
 			n.kids = scanNodesOf(st)
 		}
@@ -2269,6 +2474,148 @@ func scanGen(rng *hx.Rng, n int, tier string, w *hx.Writer) {
 			scanCase(mode, xk, nil, flat, []string{"with-extra"}, w)
 		}
 	}
+	// seventh round: the marker family, from fresh forks after all shapes above (which stay the ones drawn before)
+	scanGenMarks(rng, (n+9)/10, tier, w)
+}
+
+/* ---------- the marker family (seventh round) ---------- */
+
+// markNode: a NAMED field of a Go-declared type with a Prefix() method (reflect.StructOf cannot embed such a type), by
+// value or by pointer, exported or not, with no tag / a foreign tag / a prefix tag / the custom tag / junk
+func (g *scanGenSt) markNode() *scanNode {
+	r := g.r
+	n := &scanNode{isStruct: true, byVal: r.P(3, 5)}
+	switch c := r.Intn(20); {
+	case c < 7:
+		n.ty = "pm"
+	case c < 10:
+		n.ty = "ps"
+	case c < 14:
+		n.ty = "pn"
+		if !n.byVal && !r.P(1, 4) { // a recognised field of this type refuses the start: keep those rare
+			n.byVal = true
+		}
+	default:
+		n.ty = "mk"
+	}
+	n.name = g.fresh("K")
+	if r.P(1, 7) {
+		n.name = g.fresh("k")
+	}
+	ft := scanFieldType(n)
+	n.marker = scanMarkerOf(ft)
+	st := ft
+	if !n.byVal {
+		st = ft.Elem()
+	}
+	n.kids = scanNodesOf(st)
+	foreign := func() scanKV {
+		return scanKV{scanForeign[r.Intn(len(scanForeign))], []string{"x", "", "a,b", "-", "grp", "mark"}[r.Intn(6)]}
+	}
+	switch c := r.Intn(20); {
+	case c < 8:
+	case c < 13:
+		n.tags = []scanKV{foreign()}
+		if r.P(1, 3) {
+			n.tags = append(n.tags, foreign())
+		}
+	case c < 16:
+		n.tags = []scanKV{{"prefix", []string{"grp", "mark", "nokey,required=false", "grp,note=a"}[r.Intn(4)]}}
+		if r.P(1, 3) {
+			n.tags = append([]scanKV{foreign()}, n.tags...)
+		}
+	case c < 18:
+		n.tags = []scanKV{{scanCustomTag, g.customVal()}}
+		if r.Bool() {
+			n.tags = append(n.tags, foreign())
+		}
+	case c < 19:
+		n.tags = []scanKV{{"!raw", []string{"junk", "prefix", "prefix:", "prefix=\"grp\""}[r.Intn(4)]}}
+	default:
+		n.tags = []scanKV{foreign(), {"!raw", "trailing junk"}}
+	}
+	return n
+}
+
+// scanGenMarks: m shapes of the marker family, drawn after (and independently of) the shapes of scanGen.  An ordinary
+// random shape gets 2-5 marker-family fields at random places the scanner walks (the component itself, embedded structs
+// of any depth; one of them is put one level further down in an embedded struct of its own in half of the shapes); the
+// flattened form, the nesting and one re-nesting run through all oracles, (vii) included.
+func scanGenMarks(rng *hx.Rng, m int, tier string, w *hx.Writer) {
+	maxDep := 4
+	if tier == "thorough" {
+		maxDep = 6
+	}
+	for i := 0; i < m; i++ {
+		g := &scanGenSt{r: rng.Fork(), maxDep: maxDep}
+		r := g.r
+		if r.P(1, 4) {
+			g.maxDep = r.Intn(maxDep + 1)
+		}
+		base := g.kids(0, true, true)
+		for k := 2 + r.Intn(4); k > 0; k-- {
+			var sites []*scanSite
+			scanSites(&base, nil, 0, nil, &sites)
+			site := sites[r.Intn(len(sites))]
+			if r.P(1, 3) {
+				site = sites[len(sites)-1-r.Intn((len(sites)+1)/2)] // prefer the deeper ones
+			}
+			n := g.markNode()
+			if k == 1 && r.Bool() {
+				n = &scanNode{name: g.fresh("E"), ty: "st", isStruct: true, anon: true, byVal: true, kids: []*scanNode{n}}
+				if r.Bool() {
+					n.kids = append(n.kids, g.node(g.maxDep, true))
+				}
+			}
+			at := r.Intn(len(*site.kids) + 1)
+			*site.kids = append(*site.kids, nil)
+			copy((*site.kids)[at+1:], (*site.kids)[at:])
+			(*site.kids)[at] = n
+		}
+		scanBlankPass(base)
+		flatKids := scanFlatten(base)
+		flat := scanCase("G", flatKids, nil, nil, []string{"flat", "mark-family"}, w)
+		scanCase("G", base, nil, flat, []string{"base", "mark-family"}, w)
+		re := g.renest(scanCloneAll(flatKids), 0)
+		scanCase("G", re, nil, flat, []string{"renest", "mark-family"}, w)
+	}
+}
+
+// scanCorpusMarks: the Go-declared holder types of the marker family and two hand-written StructOf shapes
+func scanCorpusMarks(w *hx.Writer) {
+	for k := scanStaticsOld; k < len(scanStatics); k++ {
+		scanStaticCase(k, scanStatics[k], []string{"corpus", "static", "mark-family"}, w)
+	}
+	mark := func(name, ty string, byVal bool, tags ...scanKV) *scanNode {
+		n := &scanNode{name: name, ty: ty, isStruct: true, byVal: byVal, tags: tags}
+		ft := scanFieldType(n)
+		n.marker = scanMarkerOf(ft)
+		if !byVal {
+			ft = ft.Elem()
+		}
+		n.kids = scanNodesOf(ft)
+		return n
+	}
+	emb := func(name string, kids ...*scanNode) *scanNode {
+		return &scanNode{name: name, ty: "st", isStruct: true, anon: true, byVal: true, kids: kids}
+	}
+	leaf := func(name, ty string, tags ...scanKV) *scanNode { return &scanNode{name: name, ty: ty, tags: tags} }
+	// every member of the family directly on the component and 1 / 2 / 3 embedded levels down
+	fam := []*scanNode{
+		mark("Primary", "pm", false), mark("Fallback", "pm", true),
+		emb("Db", mark("Labelled", "pm", true, scanKV{"json", "labelled"}), mark("Bound", "pm", true, scanKV{"prefix", "grp"}), leaf("Note", "s"),
+			emb("More", mark("ByVal", "mk", true), mark("PtrV", "mk", false, scanKV{"yaml", "v"}), mark("hidden", "pm", true),
+				emb("Deep", mark("Absent", "pn", true), mark("AbsentJ", "pn", true, scanKV{"db", "x"}), mark("Seen", "ps", true, scanKV{scanCustomTag, "cfg,note=(a b)"}),
+					mark("Set", "ps", false), leaf("W", "s", scanKV{"value", "${s.k1}"})))),
+		mark("hiddenP", "pm", false), leaf("Cnt", "i", scanKV{"prop", "i.k"}),
+	}
+	ffl := scanCase("G", scanFlatten(fam), nil, nil, []string{"corpus", "flat", "mark-family"}, w)
+	scanCase("G", fam, nil, ffl, []string{"corpus", "base", "mark-family"}, w)
+	scanCase("G+fb", fam, nil, ffl, []string{"corpus", "with-extra", "mark-family"}, w)
+	// a component whose ONLY special field is a by-value field of a pointer-receiver type with an absent prefix
+	only := []*scanNode{emb("Opt", mark("Fallback", "pn", true)), leaf("Name", "s", scanKV{"value", "lit"})}
+	ofl := scanCase("G", scanFlatten(only), nil, nil, []string{"corpus", "flat", "mark-family"}, w)
+	scanCase("G", only, nil, ofl, []string{"corpus", "base", "mark-family"}, w)
 }
 
 func scanCloneAll(kids []*scanNode) []*scanNode {
@@ -2287,10 +2634,14 @@ func scanStaticCase(k int, s any, labels []string, w *hx.Writer) {
 	scanCase("X"+strconv.Itoa(k), scanNodesOf(reflect.TypeOf(s)), s, flat, labels, w)
 }
 
+// the static types of the first six rounds run first, the later ones at the end of the corpus
+const scanStaticsOld = 23
+
 func scanCorpus(w *hx.Writer) {
-	for k, s := range scanStatics {
+	for k, s := range scanStatics[:scanStaticsOld] {
 		scanStaticCase(k, s, []string{"corpus", "static"}, w)
 	}
+	defer scanCorpusMarks(w)
 	// hand-written StructOf shapes
 	leaf := func(name, ty string, tags ...scanKV) *scanNode { return &scanNode{name: name, ty: ty, tags: tags} }
 	emb := func(name string, kids ...*scanNode) *scanNode {
